@@ -47,6 +47,13 @@ VARIANTS = [
                                                   "        self._raw_text = value\n        if self.store_handle:\n            self.store_handle.block.store.update(self, value, size)\n")], 'RAWTEXT-ORD'),
     fire('c08-fastpath-guard-dropped', ['C08'], [(TS, "                    (len(block.tokens) > _HALF_LOAD_FACTOR or len(self._blocks) == 1) and\n                    block.last_newline_index >= end_j\n",
                                                   "                    (len(block.tokens) > _HALF_LOAD_FACTOR or len(self._blocks) == 1)\n")], 'FASTPATH-GUARD'),
+    fire('c07-get-next-off-by-one', ['C07'], [(TS, "        if handle.index + 1 < len(handle.block.tokens):\n            return handle.block.tokens[handle.index + 1]", "        if handle.index + 1 <= len(handle.block.tokens) - 1 and handle.index + 2 < len(handle.block.tokens) + 1 and handle.index < len(handle.block.tokens) - 2:\n            return handle.block.tokens[handle.index + 1]")], 'NAV-FORM'),
+    fire('c07-iter-excludes-end', ['C07'], [(TS, "            yield from end_handle.block.tokens[:end_handle.index+1]", "            yield from end_handle.block.tokens[:end_handle.index]")], 'NAV-FORM'),
+    fire('c07-insert-after-same-slot', ['C07'], [(TS, "            start = (start_handle.block.index, start_handle.index + 1)\n        self._splice(tokens, start, start)", "            start = (start_handle.block.index, start_handle.index)\n        self._splice(tokens, start, start)")], 'NAV-FORM'),
+    fire('c08-update-early-return-le', ['C08'], [(TS, "        if handle.index < handle.block.last_newline_index:\n            return", "        if handle.index <= handle.block.last_newline_index:\n            return")], 'POS-FORM'),
+    fire('c08-fastpath-lines', ['C08'], [(TS, "                    lines_diff += token.size.line\n", "                    lines_diff += token.size.line and 1\n")], 'POS-FORM'),
+    fire('c08-position-column-add', ['C08'], [(TS, "        if other.line:\n            self.column = other.column\n        else:\n            self.column += other.column", "        self.column += other.column")], 'POS-FORM'),
+    silent('c08-twin-update-commuted', ['C08'], [(TS, "        handle.block.size.line += size.line - token.size.line", "        handle.block.size.line += -token.size.line + size.line")]),
     silent('c07-twin-local-rename', ['C07', 'C08'], [(TS, "        new_blocks = _build_blocks(self, block.index, block.tokens)\n        self._blocks[block.index:block.index+1] = new_blocks\n        self._update_block_indexes(new_blocks[-1].index + 1)",
                                                       "        fresh = _build_blocks(self, block.index, block.tokens)\n        self._blocks[block.index:block.index+1] = fresh\n        self._update_block_indexes(fresh[-1].index + 1)")]),
     silent('c07-twin-logging', ['C07', 'C08'], [(TS, "    def _update_block(self, block: _StoreBlock[_T]) -> None:\n        length = len(block.tokens)\n",
